@@ -102,7 +102,7 @@ Qed.
 
 (* the keys of the files accepted in a call (the list [keys] of call_holds) *)
 Definition keysK (tbl : list (string * Z)) (c : call) : list (list Z * Z) :=
-  flat_map (fun x => match snd x with Some k => [k] | None => [] end) (accepted_files tbl c).
+  accepted_keys tbl c.
 
 Section Static.
   Variable tbl : list (string * Z).
@@ -159,7 +159,7 @@ Section Static.
       + apply HFK. unfold file_keys. apply in_flat_map. exists (TDir truth). split; [exact HT|].
         apply in_flat_map. exists e'. split; [exact HI'|]. rewrite EK', EK. now left.
       + intros j. split; [apply HinDK|apply HinAM]; apply HD.
-      + intros HX. unfold keysK. apply in_flat_map.
+      + intros HX. unfold keysK, accepted_keys. apply in_flat_map.
         exists ((norm (e_comps e'), r_sig r), Some (pre, last)). split; [|now left].
         unfold accepted_files. apply in_flat_map. exists (r, truth). split; [exact HA|].
         apply in_flat_map. exists e'. split; [exact HI'|]. rewrite EK'.
@@ -189,4 +189,67 @@ Section Static.
         * intros t Ht. apply HT. now right.
         * intros x Hx. apply HA. cbn [active]. now right.
   Qed.
+
+  Lemma active_truth : forall (rs : list rule) ts (r : rule) truth,
+      In (r, truth) (active rs ts) -> In (TDir truth) ts.
+  Proof.
+    induction rs as [|r0 rs IH]; intros ts r truth HI; [destruct ts; destruct HI|].
+    destruct ts as [|t ts]; [destruct HI|]. destruct t as [| |tr]; cbn [active] in HI.
+    - right. eapply IH; eauto.
+    - destruct HI.
+    - destruct HI as [HI|HI]; [injection HI as _ ->; now left|right; eapply IH; eauto].
+  Qed.
+
+  (* the key of an accepted file: a file key, below directory paths *)
+  Lemma accepted_key_static pre last :
+    forallb (call_wf tbl) [c] = true ->
+    In (pre, last) (accepted_keys tbl c) ->
+    In (pre ++ [last]) FK /\ forall j, In (firstn j pre) DK.
+  Proof.
+    intros HW HI. unfold accepted_keys in HI. apply in_flat_map in HI.
+    destruct HI as (x & Hx & Hk). destruct (snd x) as [k|] eqn:Ex; [|destruct Hk].
+    destruct Hk as [->|[]]. unfold accepted_files in Hx. apply in_flat_map in Hx.
+    destruct Hx as ([r truth] & HA & Hx). apply in_flat_map in Hx. destruct Hx as (e & He & Hx).
+    destruct (e_kind e) eqn:EK; [|destruct Hx|destruct Hx].
+    destruct (ext_ok r e); [|destruct Hx]. destruct Hx as [<-|[]]. cbn [snd] in Ex.
+    pose proof (active_truth _ _ _ _ HA) as HT.
+    split.
+    - apply HFK. unfold file_keys. apply in_flat_map. exists (TDir truth). split; [exact HT|].
+      apply in_flat_map. exists e. split; [exact He|]. rewrite EK, Ex. now left.
+    - intros j. apply HDK. rewrite dir_keys_eq. apply in_flat_map. exists (TDir truth).
+      split; [exact HT|]. apply in_flat_map. exists e. split; [exact He|].
+      pose proof (entry_dirs_spec tbl (k_root c) (eff_trim c) e pre last Ex) as HD.
+      rewrite EK in HD. apply HD.
+  Qed.
 End Static.
+
+(* directory paths are closed under prefixes *)
+Lemma is_prefix_firstn : forall f p, is_prefix f p = true -> f = firstn (List.length f) p.
+Proof.
+  induction f as [|x f IH]; intros p H; [reflexivity|].
+  destruct p as [|y p]; [discriminate|]. cbn [is_prefix] in H.
+  apply andb_true_iff in H. destruct H as [H1 H2]. apply Z.eqb_eq in H1. subst y.
+  cbn [List.length firstn]. now rewrite <- (IH p H2).
+Qed.
+
+Lemma prefixes_closed {A} (ks : list A) : forall p, In p (prefixes ks) ->
+  forall j, In (firstn j p) (prefixes ks).
+Proof.
+  induction ks as [|x ks IH]; intros p HI j; cbn [prefixes] in *.
+  - destruct HI as [<-|[]]. destruct j; now left.
+  - destruct HI as [<-|HI]; [destruct j; now left|].
+    apply in_map_iff in HI. destruct HI as (p' & <- & HI).
+    destruct j as [|j]; [now left|]. right. cbn [firstn]. apply in_map. now apply IH.
+Qed.
+
+Lemma dir_keys_closed tbl c p f :
+  In p (dir_keys tbl c) -> is_prefix f p = true -> In f (dir_keys tbl c).
+Proof.
+  intros HI HP. rewrite (is_prefix_firstn f p HP). rewrite dir_keys_eq in *.
+  apply in_flat_map in HI. destruct HI as (t & Ht & HI). apply in_flat_map. exists t.
+  split; [exact Ht|]. destruct t as [| |truth]; [destruct HI|destruct HI|].
+  apply in_flat_map in HI. destruct HI as (e & He & HI). apply in_flat_map. exists e.
+  split; [exact He|]. unfold entry_dirs in *.
+  destruct (key_comps (k_root c) (e_comps e)); [|destruct HI].
+  destruct (intern tbl _); [|destruct HI]. now apply prefixes_closed.
+Qed.
